@@ -157,7 +157,14 @@ func (g *Gen) addEdges() {
 func genC01(g *Gen) {
 	g.setMode(0)
 	for !g.w.full() {
-		switch g.r.Intn(10) {
+		switch g.r.Intn(11) {
+		case 10:
+			x := mk(g.r.Intn(2) == 0, g.wrapCoef(), g.r.Intn(41)-20)
+			y := mk(g.r.Intn(2) == 0, g.boundaryCoef(), g.r.Intn(81)-40)
+			if g.r.Intn(2) == 0 {
+				x, y = y, x
+			}
+			g.allModes(g.addSubOp(), x, y)
 		case 0, 1, 2, 3:
 			g.addTie()
 		case 4, 5:
@@ -258,7 +265,24 @@ func (g *Gen) quoPair() (x, y d128.Decimal) {
 func genC02(g *Gen) {
 	g.setMode(0)
 	for !g.w.full() {
-		switch g.r.Intn(10) {
+		switch g.r.Intn(16) {
+		case 10, 11, 12:
+			if x, y, ok := g.mulSolved(); ok {
+				g.allModes("Mul", x, y)
+			}
+		case 13, 14:
+			x, y := g.quoSolved()
+			g.allModes("Quo", x, y)
+		case 15:
+			c1, c2 := g.boundaryCoef(), g.boundaryCoef()
+			if g.r.Intn(2) == 0 {
+				c1 = g.wrapCoef()
+			}
+			if g.r.Intn(3) == 0 {
+				c2 = g.wrapCoef()
+			}
+			x, y := mk(g.r.Intn(2) == 0, c1, g.r.Intn(41)-20), mk(g.r.Intn(2) == 0, c2, g.r.Intn(41)-20)
+			g.allModes([]string{"Mul", "Quo"}[g.r.Intn(2)], x, y)
 		case 0, 1, 2, 3:
 			x, y := g.mulPair()
 			g.allModes("Mul", x, y)
